@@ -355,6 +355,9 @@ class Ctx:
         outdir = os.path.join(VERIF, "out", "violations", self.pid)
         for key, (n, what) in sorted(self.known_hits.items()):
             print("KNOWN-FINDING: property=%s %s [%s] (%d cases)" % (self.pid, what, key, n))
+        if getattr(self, "no_evidence", False):
+            # replay mode: nothing is written, the caller inspects self.violations
+            return 1 if self.violations else 0
         if self.violations:
             os.makedirs(outdir, exist_ok=True)
             for i, v in enumerate(self.violations):
